@@ -5,6 +5,31 @@ from hypothesis import strategies as st
 
 from skmatter.metrics import componentwise_prediction_rigidity as CPR
 from skmatter.metrics import local_prediction_rigidity as LPR
+from vf import lifecycle as _lc
+
+
+def _with_history(f):
+    """Every call the check makes is preceded by a call with the *same list and array objects* temporarily holding other
+    values (overwritten in place, restored bit-exactly): the metric functions are stateless by contract, so a result that
+    depends on an earlier call (a cache keyed by id() or length) shows up in the oracles below."""
+    def g(*a, **k):
+        if _lc.enabled():
+            saved = []
+            for v in list(a) + list(k.values()):
+                for arr in (v if isinstance(v, list) else [v]):
+                    if isinstance(arr, np.ndarray) and arr.dtype.kind == "f" and arr.flags.writeable and arr.ndim == 2:
+                        saved.append((arr, arr.copy()))
+                        arr[...] = arr[::-1] * 0.75 + 0.125
+            try:
+                _lc._silently(f, *a, **k)
+            finally:
+                for arr, keep in reversed(saved):
+                    arr[...] = keep
+        return f(*a, **k)
+    return g
+
+
+CPR, LPR = _with_history(CPR), _with_history(LPR)
 from vf import gen
 
 ID = "C20"
